@@ -150,7 +150,7 @@ theorem insertAt_invT (s : St) (hI : InvT s) (p : Nat) (k v : Int) (hp : p ≤ s
     ∃ r, s.insertAt p k v = some r ∧ InvT r.1 ∧ r.1.multi = s.multi := by
   cases hm : s.multi with
   | false =>
-    obtain ⟨r, c, h1, h2⟩ := insertAt_map_state s hI hm p k v hp
+    obtain ⟨r, c, h1, h2, _⟩ := insertAt_map_state s hI hm p k v hp
     refine ⟨r, h1, ?_, ?_⟩
     · rw [h2]; exact insertRoot_invT s hI k v c
     · rw [h2]; obtain ⟨_, _, h, _⟩ := insertRoot_t s k v c; rw [h, hm]
